@@ -83,5 +83,75 @@ SPEC = dict(
 )
 
 
+def both_backends(tier, rng):
+    """the macro battery on the real Stdfs (chroot sandbox) and on Memfs: same pass / panic, same macro name and
+    message text, same observed tree - as far as the (pre-state, call) lies in the domain of C02"""
+    from props import c02
+    H0, _ = gen(tier, rng)
+    H = [h for h in H0 if h[-1].startswith('all_paths') and h[-2].startswith('assert ')]     # the tree x call battery
+    if tier == 'quick':
+        H = H[::2]
+    S = c02.run_mode('stdfs', H)
+    M = c02.run_mode('memfs', H)
+    import shutil
+    shutil.rmtree('/verif/work/sbx', ignore_errors=True)
+    known = {f['id'] for f in vlib.load_known('C02') if f.get('status') == 'open'}
+    bad, judged, skipped, tolerated = [], 0, 0, {}
+    for h, s, m in zip(H, S, M):
+        pre = 'cwd=2f|2f:d:755:-:'
+        mem_pre = None
+        for i, (req, x, y) in enumerate(zip(h, s, m)):
+            if req.startswith('new'):
+                continue
+            if ' ## ' not in x or ' ## ' not in y:
+                break
+            so, sd = x.split(' ## ', 1)
+            mo = y.split(' ## ')[0].replace('|nopath', '')
+            md = c02.strip_abs(vlib.abs_of_dump(y))
+            if req.startswith('assert '):
+                t = req.split(' ')
+                # the domain of C02, tested on the call the macro makes with the same path arguments
+                probe = ' '.join(['exists'] + [a for a in t[2:] if a.startswith('x')][:1])
+                if t[1] in ('remove', 'remove_all', 'mkfile', 'write_all', 'symlink', 'copyfile') and c02.lexical(c02.parse(pre)[0], bytes.fromhex(t[2][1:]).decode('utf8', 'replace')) == '2f':
+                    skipped += 1      # the sandbox root stands in for '/': mutating it is outside the sandbox
+                    break
+                if not c02.in_domain(pre, probe) or (len(t) > 3 and t[1] in ('readlink_abs', 'symlink', 'copyfile') and not c02.in_domain(pre, 'exists ' + t[3])):
+                    skipped += 1
+                    break
+                if t[1] == 'symlink' and len(t) > 3:
+                    # a link to a missing target leaves the domain of C02 (dangling link) in the middle of the macro
+                    cwd_, nodes_ = c02.parse(pre)
+                    try:
+                        lp, tg = bytes.fromhex(t[2][1:]).decode(), bytes.fromhex(t[3][1:]).decode()
+                        lk = c02.lexical(cwd_, lp)
+                        base = bytes.fromhex(lk).decode().rsplit('/', 1)[0] or '/' if lk else '/'
+                        tk = c02.lexical(base.encode().hex(), tg) if not tg.startswith('/') else c02.lexical(cwd_, tg)
+                    except Exception:
+                        tk = None
+                    if tk is None or tk not in nodes_ or nodes_[tk][1] == 'l':
+                        skipped += 1
+                        break
+                judged += 1
+                if so != mo or sd != md:
+                    op = {'mkdir_m': 'mkdir_m', 'mkdir_p': 'mkdir_p', 'mkfile': 'mkfile', 'write_all': 'write_all', 'copyfile': 'copy', 'symlink': 'symlink', 'remove': 'remove', 'remove_all': 'remove_all'}.get(t[1], 'exists')
+                    cls = c02.classify(' '.join([op] + t[2:]), so, mo, pre, mem_pre, sd, md)
+                    if cls in known:
+                        tolerated[cls] = tolerated.get(cls, 0) + 1
+                    else:
+                        bad.append(dict(kind='property-violated', requests=h[:i + 1], pretty=[vlib.pretty_req(r) for r in h[:i + 1]], observed='Stdfs: ' + x[:600], expected_by_spec='Memfs: ' + mo + ' ## ' + md[:600],
+                                        why='the macro behaves differently on the two backends (outcome, message or resulting tree) inside the domain of C02' + (f' (class {cls} is not an open C02 finding)' if cls else '')))
+                    break
+            elif sd != md:
+                break
+            pre, mem_pre = sd, vlib.abs_of_dump(y)
+    return dict(stdfs_macro_calls_judged=judged, stdfs_macro_calls_outside_c02_domain=skipped, stdfs_vs_memfs_macro_divergences=len(bad), stdfs_macro_divergences_in_c02_classes=tolerated), bad
+
+
 def run(tier, seed, replay):
+    import random
+    vlib.build_harness()
+    if not replay:
+        extra, bad = both_backends(tier, random.Random(seed))
+        SPEC['extra_cov'] = extra
+        SPEC['extra_fail'] = bad
     return vlib.memfs_check(SPEC, tier, seed, replay)
